@@ -32,14 +32,18 @@ Open Scope N_scope.
 (** the value passed to panic(): http.ErrAbortHandler itself, or any other value (by identity) *)
 Inductive pval := AbortHandler | PV (v : N).
 
-(** how a handler writes body bytes; all three end in ResponseWriter.Write
-    (ResponseWriter has no ReadFrom; io.Copy falls back to Write) *)
-Inductive via := ViaWrite | ViaCopyString | ViaCopyFile.
+(** how a handler writes body bytes; all end in ResponseWriter.Write
+    (ResponseWriter has no ReadFrom; io.Copy falls back to Write; the Store helpers
+    Error404/Error500/Redirect/Respond200/RespondJson go through http.Error, http.Redirect,
+    W.WriteHeader + W.Write and json.Encoder over W: the harness expands them into
+    [Hdr c; Body ViaHelper chunk]) *)
+Inductive via := ViaWrite | ViaCopyString | ViaCopyFile | ViaHelper.
 
 Inductive act :=
 | Nop                           (* touches only the header map: W.Header().Set(..) *)
 | Hdr (code : N)                (* W.WriteHeader(code) *)
 | Body (how : via) (chunk : N)  (* W.Write / io.Copy(W, ..) of one chunk *)
+| Flush (with_error : bool)     (* W.Flush() / W.FlushError(): commits the header (implicit 200) *)
 | Panic (p : pval).             (* panic(p); execution of the handler stops here *)
 Definition script := list act.
 
@@ -66,17 +70,26 @@ Definition rw_write (chunk : N) (w : rw) : rw :=
   let w1 := if status w =? 0 then rw_write_header 200 w else w in
   origin_write chunk w1.
 
+(** Flush / FlushError (the Origin can flush: net/http's response and httptest's recorder do):
+    net/http sends the implicit 200 if no header went out yet.  Since commit 9de7f2e the
+    ResponseWriter records that 200 ([records = true]); before, Status stayed 0
+    ([records = false], kept to state what was wrong: [C15_flush_old_refuted]). *)
+Definition rw_flush (records : bool) (w : rw) : rw :=
+  let w1 := origin_write_header 200 w in
+  mkRw (if records && (status w =? 0) then 200 else status w) (wire_hdr w1) (wbody w1).
+
 (** http.Error(w, text, 500): WriteHeader(500) then one body chunk, the error text *)
 Definition err_chunk : N := 999999.
 Definition http_error_500 (w : rw) : rw := rw_write err_chunk (rw_write_header 500 w).
 
 (** the handler: runs until the first Panic *)
-Fixpoint exec (sc : script) (w : rw) : rw * option pval :=
+Fixpoint exec (fr : bool) (sc : script) (w : rw) : rw * option pval :=
   match sc with
   | [] => (w, None)
-  | Nop :: r => exec r w
-  | Hdr c :: r => exec r (rw_write_header c w)
-  | Body _ ch :: r => exec r (rw_write ch w)
+  | Nop :: r => exec fr r w
+  | Hdr c :: r => exec fr r (rw_write_header c w)
+  | Body _ ch :: r => exec fr r (rw_write ch w)
+  | Flush _ :: r => exec fr r (rw_flush fr w)
   | Panic p :: _ => (w, Some p)
   end.
 
@@ -133,12 +146,14 @@ Section Relay.
       (w', [END (status w') (rip rq) (rmethod rq) (ruri rq) (rid rq)])
     else (w, []).
 
-  Definition relay (thr : N) (rq : req) (sc : script) : result :=
+  (** [fr]: whether Flush records the implicit 200 ([true] = the code as it is now) *)
+  Definition relay_gen (fr : bool) (thr : N) (rq : req) (sc : script) : result :=
     let recs0 := if enabled thr LInfo then [BEG (rip rq) (rmethod rq) (ruri rq) (rid rq)] else [] in
-    let '(w1, p) := exec sc rw0 in
+    let '(w1, p) := exec fr sc rw0 in
     let '(w2, recs1, sent, esc) := recover_block thr rq w1 p in
     let '(w3, recs2) := end_block thr rq w2 in
     mkRes esc sent w3 (recs0 ++ recs1 ++ recs2).
+  Definition relay := relay_gen true.
 End Relay.
 
 (** ** Script predicates used by the property *)
@@ -157,7 +172,7 @@ Fixpoint panics_before_header (sc : script) : bool :=
   | [] => false
   | Nop :: r => panics_before_header r
   | Panic _ :: _ => true
-  | _ => false
+  | _ => false                  (* Hdr, Body and Flush put a status on the wire *)
   end.
 
 (** the status is set at most once: no WriteHeader once a header went out *)
@@ -167,6 +182,7 @@ Fixpoint set_once_from (started : bool) (sc : script) : bool :=
   | Nop :: r => set_once_from started r
   | Hdr _ :: r => if started then false else set_once_from true r
   | Body _ _ :: r => set_once_from true r
+  | Flush _ :: r => set_once_from true r
   | Panic _ :: _ => true
   end.
 Definition set_once (sc : script) : bool := set_once_from false sc.
